@@ -38,6 +38,13 @@ def h_fit_fault(B, fault="numpy-input"):
         "string-input": lambda: mk().fit("data", "time"),
         "unknown-sample-dim": lambda: mk().fit(X, "nope"),
         "empty-sample-dims": lambda: mk().fit(X, ()),
+        # the same dimension faults with centring off: the refusal must not be a side effect of Scaler's X.mean(dim)
+        "unknown-sample-dim|center=False": lambda: mk(center=False).fit(X, "nope"),
+        "one-unknown-of-two-sample-dims": lambda: mk().fit(X, ("time", "member")),
+        "one-unknown-of-two-sample-dims|center=False": lambda: mk(center=False).fit(X, ("time", "member")),
+        "one-unknown-of-two-sample-dims|list|center=False": lambda: mk(center=False).fit(X, ["member", "time"]),
+        "empty-sample-dims|center=False": lambda: mk(center=False).fit(X, ()),
+        "all-dims-are-sample-dims|center=False": lambda: mk(center=False).fit(X, ("time", "lat", "lon")),
         "all-dims-are-sample-dims": lambda: mk().fit(X, ("time", "lat", "lon")),
         "numpy-weights": lambda: mk().fit(X, "time", weights=np.ones((2, 2))),
         "n_modes>rank": lambda: M.single("EOF", n_modes=5, solver="full").fit(X, "time"),
@@ -204,7 +211,7 @@ def configs(tier):
             cfg["options"] = {"full_rank": True}
         out.append(cfg)
 
-    for f in ("numpy-input", "list-of-numpy", "none-input", "string-input", "unknown-sample-dim", "empty-sample-dims", "all-dims-are-sample-dims", "numpy-weights", "n_modes>rank", "n_modes=0", "n_modes=-1", "n_modes=1.5", "n_modes='a'", "n_modes=None", "unknown-solver", "unknown-solver-empty"):
+    for f in ("numpy-input", "list-of-numpy", "none-input", "string-input", "unknown-sample-dim", "empty-sample-dims", "all-dims-are-sample-dims", "unknown-sample-dim|center=False", "one-unknown-of-two-sample-dims", "one-unknown-of-two-sample-dims|center=False", "one-unknown-of-two-sample-dims|list|center=False", "empty-sample-dims|center=False", "all-dims-are-sample-dims|center=False", "numpy-weights", "n_modes>rank", "n_modes=0", "n_modes=-1", "n_modes=1.5", "n_modes='a'", "n_modes=None", "unknown-solver", "unknown-solver-empty"):
         add("h_fit_fault", f"fit|{f}", fault=f)
     for k in ("int<=0", "int>rank", "float>1", "float<=0"):
         add("h_nmodes_symbolic", f"n_modes symbolic|{k}", kind=k)
